@@ -84,6 +84,28 @@ var c10FuncsOnly = map[string]string{
 	"upstream:(setEncoder).Len":              "see set-of-sorting",
 }
 
+// Conditional drift (round 8): entries that apply only when a fact has been decided in this run.
+//
+// element-check: encoding/asn1's counting pass tests the header of every element against the element
+// type before it decodes any (`sequence tag mismatch`).  When C10.R3:element:typed holds — every
+// element the fork's element decoding accepts, with the parameters the fork really passes, has a header
+// that this test lets through — the test is implied by what follows it, and a fork without it accepts
+// the same inputs with the same values (it may report another element's error first).  Then, and only
+// then, the test may be absent from the fork: its two sites, its three conditions, and its negation in
+// the chains of the sites that follow it.  The texts are upstream's (go1.23) normal form; a toolchain
+// whose counting pass reads differently matches none of them and the difference is reported.
+var (
+	c10ElemGuardNeg   = regexp.MustCompile(`!\(\(!\(L\d+\) && \(\(\(L\d+\.class != 0\) \|\| \(L\d+\.isCompound != L\d+\)\) \|\| \(L\d+\.tag != L\d+\)\)\)\) ; `)
+	c10ElemGuardSite  = regexp.MustCompile(`^(err StructuralError\{.*sequence tag mismatch.*\}|ret ·)  WHEN  (.* ; )?!\(L\d+\) ; \(\(\(L\d+\.class != 0\) \|\| \(L\d+\.isCompound != L\d+\)\) \|\| \(L\d+\.tag != L\d+\)\) ; `)
+	c10ElemGuardItems = map[string]bool{
+		"cond sw(L1.tag)∈{22,27,20,12,18,30}":                                           true,
+		"cond sw(L1.tag)∈{24,23}":                                                       true,
+		"cond (!(L1) ∧ (((0 != L2.class) || (L3 != L2.isCompound)) || (L4 != L2.tag)))": true,
+	}
+)
+
+const c10ElemCheckReason = "encoding/asn1's counting-pass test of the element headers is implied by the element decoding that follows it (decided: element:typed) — a fork that leaves the test to the element decoding accepts the same inputs"
+
 func c10R3(r *Run, li *c10LaxInfo) {
 	r.Rule("C10.R3")
 	fork, up := r.P.Pkg("asn1"), r.P.ByPath["encoding/asn1"]
@@ -98,7 +120,11 @@ func c10R3(r *Run, li *c10LaxInfo) {
 		}
 	}
 	// both sides are collected from the whole package, whatever file a declaration lives in
-	res := ForkDiff(fork, up, nil, lax)
+	// package-level tables that remember what a pure function computed (rules_t8c10_memo.go)
+	memo, pure := c10MemoTables(r)
+	// the elements of a SEQUENCE OF are type-checked with the parameters they are decoded with (rules_t8c10_elem.go)
+	elem := c10ElementTyping(r, li)
+	res := ForkDiff(fork, up, nil, lax, memo, pure, elem)
 	r.Pass("upstream", "-", "compared against "+res.UpstreamDir)
 	r.Floor("same-named functions compared", res.Functions, 70)
 	for _, k := range res.SigMismatch {
@@ -125,6 +151,9 @@ func c10R3(r *Run, li *c10LaxInfo) {
 			}
 			r.Check("only-"+side+":"+k, ok, "-", "function exists on the "+side+" side only: "+why)
 		}
+	}
+	for _, k := range res.Updaters {
+		r.Pass("updater:"+k, "-", "function on the fork side only that takes one value of a struct type of the package and gives it back with some fields set to constants (`p.f = c` … `return p`): no effect and no site of its own; what it does to the value is followed field by field where the value is used (element:typed / element:params)")
 	}
 	for _, k := range res.FuncsPure {
 		r.Pass("pure-helper:"+k, "-", "function on one side only without receiver whose body only tests its integer / boolean parameters and locals for equality, copies them and returns one: it has no effect of its own; each call is evaluated as part of the decision table it stands in (compared with encoding/asn1 as a function), and a call anywhere else is a site the other side does not have")
@@ -162,6 +191,12 @@ func c10R3(r *Run, li *c10LaxInfo) {
 			}
 		}
 		s.Text = fdResort(s.Text, drop)
+		if elem.typed && s.Fn == elem.holder && !c10ElemGuardSite.MatchString(s.Text) {
+			if t := c10ElemGuardNeg.ReplaceAllString(s.Text, ""); t != s.Text {
+				s.Text = fdRenumberLocals(t)
+				used["element-check:guard"]++
+			}
+		}
 	}
 	matchedAfter := 0
 	for i := range res.OnlyUp {
@@ -204,6 +239,11 @@ func c10R3(r *Run, li *c10LaxInfo) {
 		if s.match {
 			return
 		}
+		if elem.typed && side == "upstream" && s.Fn == elem.holder && c10ElemGuardSite.MatchString(s.Text) {
+			used["element-check"]++
+			allowed++
+			return
+		}
 		for _, a := range c10Allows {
 			if a.Fn == s.Fn && a.Side == side && glob(a.Glob, s.Text) {
 				used[a.Name]++
@@ -227,17 +267,19 @@ func c10R3(r *Run, li *c10LaxInfo) {
 	for _, s := range res.OnlyFork {
 		report(s, "fork", r.P.Pos(s.Pos))
 	}
-	for _, k := range res.Compared {
-		d := diffs[k]
-		if d == nil {
-			r.Pass("sites:"+k, "-", "strict residual of "+k+" has the same rejection sites, error-propagating calls and returns under the same conditions as encoding/asn1 (modulo the drift table)")
-			continue
+	emitSites := func() {
+		for _, k := range res.Compared {
+			d := diffs[k]
+			if d == nil {
+				r.Pass("sites:"+k, "-", "strict residual of "+k+" has the same rejection sites, error-propagating calls and returns under the same conditions as encoding/asn1 (modulo the drift table)")
+				continue
+			}
+			n := len(d.items)
+			if n > 4 {
+				d.items = append(d.items[:4], fmt.Sprintf("… and %d more", n-4))
+			}
+			r.Fail("sites:"+k, d.where, fmt.Sprintf("the strict residual of the fork's %s and encoding/asn1 differ in %d site(s) that the drift table does not list: %s", k, n, strings.Join(d.items, " || ")))
 		}
-		n := len(d.items)
-		if n > 4 {
-			d.items = append(d.items[:4], fmt.Sprintf("… and %d more", n-4))
-		}
-		r.Fail("sites:"+k, d.where, fmt.Sprintf("the strict residual of the fork's %s and encoding/asn1 differ in %d site(s) that the drift table does not list: %s", k, n, strings.Join(d.items, " || ")))
 	}
 	r.Floor("sites identical after normalisation", res.Matched, 200)
 	// the drift entries in use are part of the evidence
@@ -250,6 +292,8 @@ func c10R3(r *Run, li *c10LaxInfo) {
 			names[a.Name] = [2]string{a.Class, a.Reason}
 		}
 	}
+	names["element-check"] = [2]string{"equivalent (decided)", c10ElemCheckReason}
+	names["element-check:guard"] = names["element-check"]
 	var ks []string
 	for k := range used {
 		ks = append(ks, k)
@@ -261,7 +305,20 @@ func c10R3(r *Run, li *c10LaxInfo) {
 	r.Pass("summary", "-", fmt.Sprintf("%d functions; %d sites identical, %d identical after drift rewrites, %d covered by drift allowances", res.Functions, res.Matched, matchedAfter, allowed))
 	// the type variables the fork dispatches on are what the rewrites claim
 	c10TypeVars(r, res.Renamed)
-	c10R3Items(r, res, up.Fset)
+	lone, emitItems := c10R3Items(r, res, up.Fset, elem)
+	// findings of the walk stated in their own words (rules_t8c10.go): a guard that only one side
+	// has (its condition found no partner) and that is decided to change the outcome
+	for _, n := range res.Notes {
+		where, side := up.Fset.Position(n.Pos).String(), "upstream"
+		if n.Fork {
+			where, side = r.P.Pos(n.Pos), "fork"
+		}
+		if lone[side][n.Pos] {
+			r.Fail(n.Kind+":"+n.Fn, where, n.Text)
+		}
+	}
+	emitSites()
+	emitItems()
 	if os.Getenv("CTVERIF_C10_DEBUG") != "" {
 		fmt.Println("outside:", res.FuncsOutside, "not outside:", res.NotOutside, "sink statements:", res.SinkStmts)
 		for _, v := range res.PkgVars {
@@ -393,7 +450,8 @@ var c10ItemAllows = []c10ItemAllow{
 	{"four-digits", "appendFourDigits", "fork", `asgn P1 = (P1 / 10)`, "", 1, "equivalent", "same"},
 }
 
-func c10R3Items(r *Run, res *fdResult, upFset *token.FileSet) {
+func c10R3Items(r *Run, res *fdResult, upFset *token.FileSet, elem *c10Elem) (map[string]map[token.Pos]bool, func()) {
+	lone := map[string]map[token.Pos]bool{"fork": {}, "upstream": {}}
 	used := map[string]int{}
 	names := map[string][2]string{}
 	override := map[string]bool{} // item rewrites replace the site rewrite of the same name (canonical orientation)
@@ -432,9 +490,17 @@ func c10R3Items(r *Run, res *fdResult, upFset *token.FileSet) {
 	}
 	diffs := map[string]*diff{} // kind:fn
 	budget := make([]int, len(c10ItemAllows))
+	elemBudget := map[string]int{}
 	allowed := 0
 	report := func(s fdSite, side, where string) {
 		if s.match {
+			return
+		}
+		if elem != nil && elem.typed && side == "upstream" && s.Fn == elem.holder && c10ElemGuardItems[s.Text] && elemBudget[s.Text] < 1 {
+			elemBudget[s.Text]++
+			used["element-check"]++
+			names["element-check"] = [2]string{"equivalent (decided)", c10ElemCheckReason}
+			allowed++
 			return
 		}
 		for i, a := range c10ItemAllows {
@@ -446,6 +512,7 @@ func c10R3Items(r *Run, res *fdResult, upFset *token.FileSet) {
 				return
 			}
 		}
+		lone[side][s.Pos] = true
 		k := "conditions:" + s.Fn
 		if strings.HasPrefix(s.Text, "asgn ") {
 			k = "assignments:" + s.Fn
@@ -473,35 +540,38 @@ func c10R3Items(r *Run, res *fdResult, upFset *token.FileSet) {
 	for _, s := range res.ItemsOnlyFork {
 		report(s, "fork", r.P.Pos(s.Pos))
 	}
-	for _, fn := range res.Compared {
-		for _, kind := range [][2]string{{"decisions", "decision tables (runs of equality tests and copies over integer variables, compared with encoding/asn1 as the functions they compute: strict mode must accept what encoding/asn1 accepts, with an equal value)"},
-			{"conditions", "branch conditions (if / for / range / switch clauses)"}, {"assignments", "assignments to named results and to variables that flow into returned values"}} {
-			d := diffs[kind[0]+":"+fn]
-			if d == nil && kind[0] == "decisions" {
-				if n, ok := res.Tables[fn]; ok {
-					r.Pass(kind[0]+":"+fn, "-", fmt.Sprintf("%d run(s) of equality tests and copies over integer variables in the strict residual of %s compute the same function as their counterpart in encoding/asn1 (decided on every abstract input)", n[0], fn))
+	emit := func() {
+		for _, fn := range res.Compared {
+			for _, kind := range [][2]string{{"decisions", "decision tables (runs of equality tests and copies over integer variables, compared with encoding/asn1 as the functions they compute: strict mode must accept what encoding/asn1 accepts, with an equal value)"},
+				{"conditions", "branch conditions (if / for / range / switch clauses)"}, {"assignments", "assignments to named results and to variables that flow into returned values"}} {
+				d := diffs[kind[0]+":"+fn]
+				if d == nil && kind[0] == "decisions" {
+					if n, ok := res.Tables[fn]; ok {
+						r.Pass(kind[0]+":"+fn, "-", fmt.Sprintf("%d run(s) of equality tests and copies over integer variables in the strict residual of %s compute the same function as their counterpart in encoding/asn1 (decided on every abstract input)", n[0], fn))
+					}
+					continue
 				}
-				continue
+				if d == nil {
+					r.Pass(kind[0]+":"+fn, "-", "the strict residual of "+fn+" has the same multiset of "+kind[1]+" as encoding/asn1 (modulo the drift table)")
+					continue
+				}
+				n := len(d.items)
+				if n > 4 {
+					d.items = append(d.items[:4], fmt.Sprintf("… and %d more", n-4))
+				}
+				r.Fail(kind[0]+":"+fn, d.where, fmt.Sprintf("the %s of the fork's %s (strict residual) and of encoding/asn1 differ in %d item(s) that the drift table does not list: %s", kind[1], fn, n, strings.Join(d.items, " || ")))
 			}
-			if d == nil {
-				r.Pass(kind[0]+":"+fn, "-", "the strict residual of "+fn+" has the same multiset of "+kind[1]+" as encoding/asn1 (modulo the drift table)")
-				continue
-			}
-			n := len(d.items)
-			if n > 4 {
-				d.items = append(d.items[:4], fmt.Sprintf("… and %d more", n-4))
-			}
-			r.Fail(kind[0]+":"+fn, d.where, fmt.Sprintf("the %s of the fork's %s (strict residual) and of encoding/asn1 differ in %d item(s) that the drift table does not list: %s", kind[1], fn, n, strings.Join(d.items, " || ")))
 		}
+		r.Floor("conditions and assignments identical after normalisation", res.ItemsMatched, 400)
+		var ks []string
+		for k := range used {
+			ks = append(ks, k)
+		}
+		sort.Strings(ks)
+		for _, k := range ks {
+			r.Pass("drift-items:"+k, "-", fmt.Sprintf("documented difference [%s] used for %d condition/assignment item(s): %s", names[k][0], used[k], names[k][1]))
+		}
+		r.Pass("summary-items", "-", fmt.Sprintf("%d conditions/assignments identical, %d identical after drift rewrites, %d covered by counted drift allowances", res.ItemsMatched, after, allowed))
 	}
-	r.Floor("conditions and assignments identical after normalisation", res.ItemsMatched, 400)
-	var ks []string
-	for k := range used {
-		ks = append(ks, k)
-	}
-	sort.Strings(ks)
-	for _, k := range ks {
-		r.Pass("drift-items:"+k, "-", fmt.Sprintf("documented difference [%s] used for %d condition/assignment item(s): %s", names[k][0], used[k], names[k][1]))
-	}
-	r.Pass("summary-items", "-", fmt.Sprintf("%d conditions/assignments identical, %d identical after drift rewrites, %d covered by counted drift allowances", res.ItemsMatched, after, allowed))
+	return lone, emit
 }
